@@ -150,12 +150,27 @@ def strip_top(rast):
 
 
 def is_ws_star(item):
+    """A repetition of whitespace only (\\s*, \\s+, ' ?', [ \\t]*)."""
     op, av = item
+    if op == "LITERAL":
+        return chr(av).isspace()
     if op != "MAX_REPEAT":
         return False
     lo, hi, sub = av
-    return lo == 0 and len(sub) == 1 and sub[0][0] == "IN" and all(
-        a == "CATEGORY" and "SPACE" in str(b) and "NOT" not in str(b) for a, b in sub[0][1])
+    if len(sub) != 1:
+        return False
+    k, v = sub[0]
+    if k == "LITERAL":
+        return chr(v).isspace()
+    if k != "IN":
+        return False
+    for a, b in v:
+        if a == "CATEGORY" and str(b) == "CATEGORY_SPACE":
+            continue
+        if a == "LITERAL" and chr(b).isspace():
+            continue
+        return False
+    return True
 
 
 def is_digits_plus(items):
